@@ -766,55 +766,60 @@ def compare_with_model(ctx, runs, drive="C08"):
         k += len(run.lines)
 
 
-def run_batch(ctx, kinds, profile, n, maxops, maxkeys, corpus_glob):
-    """Corpus cases first, then n random histories; oracle violations of `kinds` are reported (shrunk),
-    every trace is compared with the model."""
+def run_batch(ctx, kinds, profile, n, maxops, maxkeys, corpus_glob, chunk=300):
+    """Corpus cases first, then n random histories (in chunks, one Lean driver process per chunk); oracle
+    violations of `kinds` are reported (shrunk), every trace is compared with the model after every op."""
     import glob
     import json
     from ekw.core import CORPUS_DIR
-    runs = []
-    leftovers = 0
-    cases = []
     seen = {}
-    for f in sorted(glob.glob(str(CORPUS_DIR / corpus_glob))):
-        case = json.load(open(f))
-        case = case.get("case", case)
-        run, left = replay_history(case)
-        cases.append((case, run, left, True))
-    for _ in range(n):
-        cfg = random_cfg(ctx.rng, maxops, maxkeys, profile)
-        ops, run, left = gen_and_run(ctx.rng, cfg)
-        cases.append(({"cap": cfg["cap"], "via_server": cfg["via_server"], "ops": ops}, run, left, False))
-    for case, run, left, from_corpus in cases:
-        runs.append((case, run))
-        st = run.stats
-        nontrivial = st.get("op:cb", 0) > 0 or st.get("add:wait", 0) > 0 or st.get("get:granted", 0) > 0
-        ctx.case({"cap": case["cap"], "via_server": case.get("via_server", False), "n_ops": len(case["ops"]), "ops": case["ops"][:10]},
-                 nontrivial=nontrivial)
-        ctx.count("histories")
-        ctx.count("histories_via_server_dispatch" if case.get("via_server") else "histories_direct_manager")
-        ctx.count("model_steps_compared", run.nops)
-        if run.unsafe_purge:
-            ctx.count("histories_with_purge_in_unsafe_status")
-        for kk, v in st.items():
-            ctx.count(kk, v)
-        if left:
-            leftovers += 1
-            ctx.count("histories_leaving_segments_after_atexit")
-        f = run.first_fail(kinds)
-        if f is not None:
-            sig = f[3]
-            key = json.dumps(sig, sort_keys=True)
-            seen[key] = seen.get(key, 0) + 1
-            ctx.count("oracle:" + sig["kind"] + (":unsafe-purge" if sig.get("unsafe_purge") else ""))
-            if seen[key] > 2:
-                continue            # same signature again: already reported with a shrunk input
-            small = shrink(case, sig)
-            r2, _ = replay_history(small)
-            f2 = r2.fails.get(sig["kind"]) or f
-            ctx.violation(sig, small, f2[1])
-    compare_with_model(ctx, runs)
-    return runs
+    todo = n
+    first = True
+    while first or todo > 0:
+        cases = []
+        if first:
+            for f in sorted(glob.glob(str(CORPUS_DIR / corpus_glob))):
+                case = json.load(open(f))
+                case = case.get("case", case)
+                run, left = replay_history(case)
+                cases.append((case, run, left))
+            first = False
+        for _ in range(min(chunk, todo)):
+            cfg = random_cfg(ctx.rng, maxops, maxkeys, profile)
+            ops, run, left = gen_and_run(ctx.rng, cfg)
+            cases.append(({"cap": cfg["cap"], "via_server": cfg["via_server"], "ops": ops}, run, left))
+        todo -= min(chunk, todo)
+        runs = []
+        for case, run, left in cases:
+            runs.append((case, run))
+            st = run.stats
+            nontrivial = st.get("op:cb", 0) > 0 or st.get("add:wait", 0) > 0 or st.get("get:granted", 0) > 0
+            ctx.case({"cap": case["cap"], "via_server": case.get("via_server", False), "n_ops": len(case["ops"]), "ops": case["ops"][:10]},
+                     nontrivial=nontrivial)
+            ctx.count("histories")
+            ctx.count("histories_via_server_dispatch" if case.get("via_server") else "histories_direct_manager")
+            ctx.count("model_steps_compared", run.nops)
+            if run.unsafe_purge:
+                ctx.count("histories_with_purge_in_unsafe_status")
+            for kk, v in st.items():
+                ctx.count(kk, v)
+            if left:
+                ctx.count("histories_leaving_segments_after_atexit")
+            f = run.first_fail(kinds)
+            if f is not None:
+                sig = f[3]
+                key = json.dumps(sig, sort_keys=True)
+                seen[key] = seen.get(key, 0) + 1
+                ctx.count("oracle:" + sig["kind"] + (":unsafe-purge" if sig.get("unsafe_purge") else ""))
+                if seen[key] > 2:
+                    continue            # same signature again: already reported with a shrunk input
+                small = shrink(case, sig)
+                r2, _ = replay_history(small)
+                f2 = r2.fails.get(sig["kind"]) or f
+                ctx.violation(sig, small, f2[1])
+        compare_with_model(ctx, runs)
+        if len(ctx.disagreements) > 50:
+            break                   # the tie is broken; more of the same adds nothing
 
 
 def replay_print(payload, kinds):
